@@ -10,7 +10,9 @@ package main
 //   1  end-to-end scenario (targets alive/dead, RetryCount, rewrite rules, requests, add/remove
 //      between requests), compared with the model + model-free oracle
 //   3  end-to-end, oracle only (overlapping rule sets / unclean rewrite results)
-//   4  concurrent AddTarget/RemoveTarget/Next from several goroutines, oracle only
+//   4  concurrent AddTarget/RemoveTarget/Next from several goroutines, oracle only: random scripts
+//      (every name added once), removal storms, and simultaneous rounds (round 8: one call per
+//      goroutine released by a spin barrier, SAME name contended — c19RunRounds)
 //   6  balancer operation sequence like kind 0, but some Next calls are overlapped from inside: the
 //      echo context handed to Next runs an AddTarget/RemoveTarget/Next of another goroutine at its
 //      n-th access; compared with the model in the linearization order that was observed
@@ -117,7 +119,12 @@ type c19Step struct {
 }
 
 type c19Conc struct {
-	Scripts [][]c19Op `json:"scripts"` // one op list per goroutine
+	Scripts [][]c19Op `json:"scripts,omitempty"` // one op list per goroutine
+	// simultaneous rounds (c19RunRounds): the ops of one round are issued by one goroutine each, all
+	// released by one spin barrier; the next round starts when every call of this one has returned
+	Rounds [][]c19Op `json:"rounds,omitempty"`
+	// rounds: the list starts with Fill targets "i0" … "i<Fill-1>" (besides c19Case.Init)
+	Fill int `json:"fill,omitempty"`
 }
 
 type c19Case struct {
@@ -575,9 +582,9 @@ func c19Run(ci any) Result {
 }
 
 func c19Gen(r *rand.Rand, tier string) []any {
-	nOps, nE2E, nWeird, nConc, nReal, nHook := 4000, 900, 60, 40, 120, 250
+	nOps, nE2E, nWeird, nConc, nReal, nHook, nRounds := 4000, 900, 60, 40, 120, 250, 60
 	if tier == "thorough" {
-		nOps, nE2E, nWeird, nConc, nReal, nHook = 150000, 30000, 2000, 1200, 4000, 4000
+		nOps, nE2E, nWeird, nConc, nReal, nHook, nRounds = 150000, 30000, 2000, 1200, 4000, 4000, 600
 	}
 	var out []any
 	for i := 0; i < nOps; i++ {
@@ -591,6 +598,9 @@ func c19Gen(r *rand.Rand, tier string) []any {
 	}
 	for i := 0; i < nHook; i++ { // before kind 4: its failures replay deterministically
 		out = append(out, c19GenHooked(r, tier))
+	}
+	for i := 0; i < nRounds; i++ {
+		out = append(out, c19GenRounds(r, tier))
 	}
 	for i := 0; i < nConc; i++ {
 		out = append(out, c19GenConc(r, tier))
@@ -724,6 +734,25 @@ func c19Shrink(ci any) []any {
 	case 1, 3, 5:
 		out = append(out, c19ShrinkE2E(c)...)
 	case 4:
+		for i := range c.Conc.Rounds {
+			d := *c
+			d.Conc = &c19Conc{Fill: c.Conc.Fill, Rounds: append(append([][]c19Op(nil), c.Conc.Rounds[:i]...), c.Conc.Rounds[i+1:]...)}
+			out = append(out, &d)
+		}
+		for i, rd := range c.Conc.Rounds {
+			if len(rd) > 2 {
+				d := *c
+				rs := append([][]c19Op(nil), c.Conc.Rounds...)
+				rs[i] = rd[:len(rd)-1]
+				d.Conc = &c19Conc{Fill: c.Conc.Fill, Rounds: rs}
+				out = append(out, &d)
+			}
+		}
+		if len(c.Conc.Rounds) > 0 && c.Conc.Fill > 0 {
+			d := *c
+			d.Conc = &c19Conc{Fill: c.Conc.Fill / 2, Rounds: c.Conc.Rounds}
+			out = append(out, &d)
+		}
 		for g := range c.Conc.Scripts {
 			if len(c.Conc.Scripts) > 1 {
 				d := *c
@@ -748,6 +777,8 @@ func init() {
 		Rule: "kind 0: random AddTarget/RemoveTarget/Next op sequences (≤40 ops quick, ≤120 thorough; 0-5(8) initial targets; names from a small pool incl. empty, case and space look-alikes, rare duplicate initial names; Next with a fresh context = first-time pick, with a used context = retry) on NewRoundRobinBalancer (3/4) and NewRandomBalancer (1/4); " +
 			"kind 1: end-to-end scenarios through e.ServeHTTP + ProxyWithConfig with 0-4 targets over 4 instrumented upstream servers / refused loopback ports, RetryCount -1..3, 0-3 non-overlapping glob rewrite rules, 1-10 steps (requests with methods, encoded paths, queries, header sets, bodies, cancelled client contexts; AddTarget/RemoveTarget between requests); kind 3: same, oracle only (overlapping rules, unclean rewrite results); kind 4: concurrent op scripts (2-6 goroutines, unique names, call intervals on a logical clock); kind 5: kind-1 scenarios with echo behind a real http.Server (request bodies are net/http server bodies; aimed at retry-with-body, F16; 1/5 of the requests are websocket upgrades over a raw TCP connection with payload in both directions; absolute-form targets through a proxy-style client); " +
 			"kind 6 (250 quick / 4000 thorough): round-robin op sequences (2-5 distinct targets, 2-15 ops, up to 50 thorough) in which half of the Next calls are overlapped from inside: the echo.Context handed to Next issues an AddTarget / RemoveTarget / Next (other context) from a second goroutine at its 1st-3rd access and waits 2 ms for it; the calls are handed to the model in an order under which it reproduces the whole observation (both orders of every overlapping pair are tried), the oracle accepts for the overlapped Next a member of the list before or after the intruder and nil only if one of the two lists is empty; kind 4 is half random scripts, half removal storms (24-63 targets, 140 thorough, 4-8 goroutines each removing its own share of the names with picks in between), and flags a nil from Next while some target was in the list during the whole call; " +
+			"kind 4 simultaneous rounds (60 quick / 600 thorough cases of 10-39 rounds, 20-119 thorough): a list of 0-1500 (4000) filler targets, per round 2-8 goroutines issue ONE call each, released together by a spin barrier and joined before the next round — everybody AddTarget of one absent name (often followed by everybody RemoveTarget of it), everybody RemoveTarget of one name, adds and removes of one name mixed with picks, a burst of AddTarget of different new names, a burst of RemoveTarget of different names, free mixes; oracle per round and name: present before + successful adds = successful removes + present after (so never two successful AddTarget of an absent name, never two successful RemoveTarget of one entry), a refused AddTarget / RemoveTarget needs a moment at which the name was present / absent, a pick is a target that was on the list at some moment of the round, nil only if no target was there throughout; after each round the implied membership is probed sequentially (AddTarget of a member and RemoveTarget of a non-member answer false, a round-robin cycle over <= 48 members visits each once), at the end every member is removed exactly once and Next answers nil; " +
+			"rewrite rules for the SHORTEST and the LONGEST targets (round 8): 1/8 of the kind-1/5 cases have a catch-all rule as their only rule (`/*`, `^/*`, `*`, `^*`, `/`, the empty pattern), 1/8 have 1-3 exact rules for the shortest targets (`^/`, `^`, `^/?*`) beside the marker rules; their requests are `/`, `/?`, `/?x=1`, `/a`, `/a/`, `/%2F`, … and path-less absolute-form targets (``, `?`, `?x=1` after the authority: 1/3 of the absolute-form requests of these cases), expectation written down per rule shape; 1/40 of all captures and 1/12 of the catch-all targets carry a run of 63/64/65, 255-257, 1023/1025, 2049, 4095/4097 or 8200 bytes; " +
 			"request bodies: 1/3 of the requests with a body-carrying method are sent with UNKNOWN length (a reader net/http cannot size: ContentLength -1 in-process, a chunked upload through the real server; also zero bytes); " +
 			"kinds 1/3/5 draw the configuration: Proxy(balancer) (1/8) or ProxyWithConfig with custom RetryFilter (scripted answers by call, or by HTTPError code), ErrorHandler (maps to 503/418/502 or writes its own answer), Skipper (header based), ContextKey, TargetProvider balancer with scripted errors (HTTPError 503/502/429 or a plain error at NextTarget call 0-2), half of the rules via RegexRewrite, Transport (nil / *http.Transport / logging RoundTripper), a second echo instance sharing the balancer; per request 1/6 absolute-form request target (http/https, host, host:port, IPv6, 1/4 of these with upper-case scheme or userinfo), websocket upgrade through e.ServeHTTP (not hijackable), extension method PROPFIND; " +
 			"non-trivial = (kind 0) a sequence with a successful removal, a retry pick and a wrap-around of the round-robin index, or (kind 1) a scenario in which a request was retried onto another target or a rewrite rule fired; distinct = distinct model op lines",
@@ -756,6 +787,7 @@ func init() {
 		Run:            c19Run,
 		Shrink:         c19Shrink,
 		Known:          c19Known,
+		Tolerable:      c19Tolerable,
 		Serial:         true,
 		Correspondence: "C19.runOps / C19.runSteps (lean/EchoModel/C19.lean: addTarget, removeTarget, nextRR, nextRandom, loopG [= proxyLoop for the default configuration], Scenario.eff, rewriteReq/matchInput) vs middleware.NewRoundRobinBalancer/NewRandomBalancer + Proxy/ProxyWithConfig + proxyRaw + rewriteURL",
 	})
